@@ -16,7 +16,7 @@ def _mc(flavour, bug="", depth=5):
 MODEL = dict(
     bin="gates",
     trace="Trace_Gates",
-    mc=[_mc("counter", depth=5), _mc("upgrade", depth=5), _mc("upgrade", bug="migrate_keeps_flag"), _mc("counter", bug="pause_twice")],
+    mc=[_mc("counter", depth=5), _mc("upgrade", depth=5), _mc("upgrade2", depth=5), _mc("upgrade2", bug="migrate_when_unset"), _mc("upgrade", bug="migrate_keeps_flag"), _mc("counter", bug="pause_twice")],
     quick=dict(sample=3000, drive_runs=160, drive_len=30),
     thorough=dict(sample=None, drive_runs=3200, drive_len=60),
     need=[("increment", "ok"), ("increment", "fail"), ("pause", "ok"), ("pause", "fail"), ("unpause", "ok"), ("unpause", "fail"),
